@@ -550,6 +550,7 @@ STRUCT_GROUPS = [
     (r"decl:def-in-do-while-body", "declaration-inside-do-while-body-but-used-after-loop"),
     (r"throw:div-or-rem", "div-by-zero-exception-lost-division-moved-into-branch"),
     (r"type:int-to-(byte|char|short):mixed-defs", "int-variable-declared-with-narrow-cast-type"),
+    (r"type:int-to-(byte|char|short):unary-of-narrow", "neg-or-not-of-narrow-cast-typed-as-narrow"),
 ]
 
 
